@@ -9,7 +9,10 @@ THEOREMS = ['C08_init', 'C08_history_inv', 'C08_alloc_inv', 'C08_free_inv', 'C08
             'C08_certificate_needs_reads_defined', 'C08_build_passes_certificate_reuse', 'C08_build_total_reuse',
             'C08_reuse_nonvacuous', 'C08_build_passes_certificate_all', 'C08_build_total_all', 'C08_all_options_nonvacuous', 'C08_option_hypotheses_checkable',
             'C08_heap_source_is_model', 'C08_heap_source_exact', 'C08_heap_source_precondition_needed', 'C08_heap_source_nonvacuous']
-THEOREMS += ['C08_simops_source_prefix_partial', 'C08_simops_alloc_section_pinned', 'C08_simops_source_prefix_wf_partial']
+THEOREMS += ['C08_simops_source_prefix_partial', 'C08_simops_source_prefix_wf_partial']
+# round f: the pinned copy of the allocation section (C08_simops_alloc_section_pinned) is replaced by the equality with the model
+THEOREMS += ['C08_simops_alloc_source_is_model', 'C08_simops_source_is_model', 'C08_simops_source_total_certified',
+             'C08_simops_source_nonvacuous']
 
 
 def gen_map_case(rng):
